@@ -478,7 +478,8 @@ func (w *Worker) binMustAgree(x *Exec, c appCase, r AppRun, sig string) {
 	case !inFailed && b.Code != 0:
 		x.NoConfirm = true
 		x.Violate(sig+"|real-binary-fails-where-the-command-succeeds", fmt.Sprintf("`%s`: the command succeeds in-process; the program exits with status %d\nstderr: %s", c.shell(), b.Code, tailStr(b.Stderr, 400)), rep)
-	case !inFailed && b.Stdout != r.Stdout && sortedLines(b.Stdout) != sortedLines(r.Stdout):
+	case !inFailed && b.Stdout != r.Stdout && b.Stdout != r.Stdout+r.AppOut && b.Stdout != r.AppOut+r.Stdout && sortedLines(b.Stdout) != sortedLines(r.Stdout):
+		// (help and usage texts go to the application's writer in-process and to stdout in the binary)
 		if w.Nondet == "" {
 			w.Nondet = fmt.Sprintf("conformance: in-process run and real binary disagree for `%s`\n--- in-process\n%s\n--- binary\n%s", c.shell(), tailStr(r.Stdout, 1200), tailStr(b.Stdout, 1200))
 		}
